@@ -57,13 +57,18 @@ type File struct {
 	Includes []int  // indexes of included files, in textual order
 	Defs     []*Def // textual order
 	Deleted  bool   // removed by an edit script
+	NoExt    bool   // the file is called just Base, without ".thrift" (include "./shared" is legal)
 }
 
 func (f *File) RelPath() string {
-	if f.Dir == "" {
-		return f.Base + ".thrift"
+	ext := ".thrift"
+	if f.NoExt {
+		ext = ""
 	}
-	return f.Dir + "/" + f.Base + ".thrift"
+	if f.Dir == "" {
+		return f.Base + ext
+	}
+	return f.Dir + "/" + f.Base + ext
 }
 
 type Ref struct {
@@ -327,6 +332,30 @@ func Gen(o Options) *Program {
 	}
 	if o.CapsWords && simrt.Flip("prog.caps-words", 0.15) {
 		p.addCapsWords()
+	}
+	if o.Annotations && simrt.Flip("prog.go-named-type", 0.1) {
+		// a type that carries a go.name annotation, mentioned in the signature of a service of
+		// another file
+		type pair struct{ user, home *File }
+		var pairs []pair
+		for _, g := range p.Files {
+			for _, j := range g.Includes {
+				pairs = append(pairs, pair{g, p.Files[j]})
+			}
+		}
+		if len(pairs) > 0 {
+			pr := pairs[ch("prog.go-named-pair", len(pairs))]
+			var t *Def
+			if ch("prog.go-named-kind", 2) == 0 {
+				t = p.add(pr.home, &Def{Kind: KStruct, Name: p.name("Record"), Fields: []*FieldDef{{ID: 1, Name: "v", Req: ReqOptional, Type: &TypeRef{Base: "i32"}}}})
+			} else {
+				t = p.add(pr.home, &Def{Kind: KEnum, Name: p.name("Kind"), Items: []EnumItem{{Name: "PLAIN", Value: 0}, {Name: "URGENT", Value: 1}}})
+			}
+			t.Annot = fmt.Sprintf(`(go.name = "Entry%d")`, p.seq)
+			ref := &TypeRef{Ref: &Ref{t.File, t.Name}}
+			p.add(pr.user, &Def{Kind: KService, Name: p.name("Store"), Funcs: []*Func{{Name: fmt.Sprintf("fn%d_put", p.seq), Ret: ref,
+				Args: []*FieldDef{{ID: 1, Name: "item", Req: ReqOptional, Type: ref}}}}})
+		}
 	}
 	if o.CapsWords && o.Exceptions && simrt.Flip("prog.error-field", 0.1) {
 		// a field called "error" is special in an exception only; here it sits in a plain struct
@@ -1303,6 +1332,16 @@ func (p *Program) genDef(f *File, o Options) {
 			it.Value = val
 			d.Items = append(d.Items, it)
 		}
+		if n > 1 && simrt.Flip("enum.values-not-ascending", 0.2) {
+			// explicit values in no particular order (HIGH = 10, LOW = 1, MID = 5): all distinct
+			for i := range d.Items {
+				d.Items[i].Expl = true
+			}
+			for i := n - 1; i > 0; i-- {
+				j := ch("enum.value-order", i+1)
+				d.Items[i].Value, d.Items[j].Value = d.Items[j].Value, d.Items[i].Value
+			}
+		}
 		p.add(f, d)
 	case KService:
 		p.genService(f, o)
@@ -1344,6 +1383,14 @@ func (p *Program) genService(f *File, o Options) {
 		d.Funcs = append(d.Funcs, fn)
 	}
 	p.add(f, d)
+}
+
+// annotText is a definition's annotations as they follow its closing brace.
+func annotText(d *Def) string {
+	if d.Annot == "" {
+		return ""
+	}
+	return " " + d.Annot
 }
 
 // RootOf follows typedefs to the ultimate non-typedef type.
@@ -1716,13 +1763,13 @@ func (p *Program) Render(i int) string {
 					fmt.Fprintf(&b, "  %s,\n", it.Name)
 				}
 			}
-			b.WriteString("}\n")
+			b.WriteString("}" + annotText(d) + "\n")
 		case KStruct, KUnion, KException:
 			fmt.Fprintf(&b, "%s %s {\n", d.Kind, d.Name)
 			for _, fd := range d.Fields {
 				fmt.Fprintf(&b, "  %s\n", p.fieldText(i, fd))
 			}
-			b.WriteString("}\n")
+			b.WriteString("}" + annotText(d) + "\n")
 		case KConst:
 			fmt.Fprintf(&b, "const %s %s = %s\n", p.TypeText(i, d.Type), d.Name, p.ConstText(i, d.Value))
 		case KService:
@@ -1779,7 +1826,11 @@ func relInclude(from, to *File) string {
 		parts = append(parts, "..")
 	}
 	parts = append(parts, td[i:]...)
-	parts = append(parts, to.Base+".thrift")
+	if to.NoExt {
+		parts = append(parts, to.Base)
+	} else {
+		parts = append(parts, to.Base+".thrift")
+	}
 	s := strings.Join(parts, "/")
 	if !strings.HasPrefix(s, ".") {
 		s = "./" + s
